@@ -11,7 +11,7 @@ and parent / parentref / ancestry / path sections have the chain structure of `c
 
 NOT proved (`path_reresolves`, PARTIAL): that the reported path *text* re-parses (parser model, with
 `escape_path_section` quoting) to segments that select exactly the address.  Full statement:
-  theorem path_reresolves : Loc d n c → select mt dsc (parse (dotted c.path)) (d, root) = [(n, c)]
+  theorem path_reresolves : Loc d n c → select mt dsc rt (parse (dotted c.path)) (d, root) = [(n, c)]
     (or every sibling bearing the anchor when the last section is `[&name]`)
 Missing: the composition with the parser lemmas `parse_escapeSection` (C08, another builder).  It is
 checked on the real code for every generated result (re-query through the real parser and
@@ -82,15 +82,15 @@ theorem Loc.from {d n : Node} {c : Ctx} (h : Loc d n c) : From Ctx.root c := by
   | root => exact From.start
   | child r pr sec m _ _ _ ih => exact From.child r pr sec ih
 
-variable {mt : Matcher} {dsc : Desc}
+variable {mt : Matcher} {dsc : Desc} {rt : Node}
 
 /-- **Every result locates its node.**  For a well-formed document `d` (distinct keys), every real
 result `(n, c)` of `_get_required_nodes` from the root — and every member of a virtual slice result —
 is a *located node*: its coordinates were built from the root by steps each leading from the parent
 node to the child node under the reported reference. -/
-theorem results_located {d : Node} (hd : d.WF) (segs : List ESeg) :
-    ∀ r ∈ (required mt dsc segs (.real (d, Ctx.root))).1, ResLoc d r :=
-  allResLoc_required hd segs (.real (d, Ctx.root)) Loc.root
+theorem results_located {d : Node} (hd : d.WF) (segs : List ESeg) (hk : ∀ s ∈ segs, s.isKeyword = false) :
+    ∀ r ∈ (required mt dsc rt segs (.real (d, Ctx.root))).1, ResLoc d r :=
+  allResLoc_required hd segs hk (.real (d, Ctx.root)) Loc.root
 
 /-- **coords_sound**: the address of a located node resolves to that very node; it is the root
 (no parent, no reference), or its reported parent address resolves to a node `P` in which the
@@ -146,9 +146,10 @@ theorem ancestry_is_chain {d n : Node} {c : Ctx} (h : Loc d n c) :
         simp [hp]
 
 /-- The chain facts for the results of a query. -/
-theorem required_coords_chain {d : Node} (hd : d.WF) (segs : List ESeg) (n : Node) (c : Ctx)
-    (h : Res.real (n, c) ∈ (required mt dsc segs (.real (d, Ctx.root))).1) : From Ctx.root c :=
-  Loc.from (results_located (mt := mt) (dsc := dsc) hd segs _ h)
+theorem required_coords_chain {d : Node} (hd : d.WF) (segs : List ESeg) (hk : ∀ s ∈ segs, s.isKeyword = false)
+    (n : Node) (c : Ctx)
+    (h : Res.real (n, c) ∈ (required mt dsc rt segs (.real (d, Ctx.root))).1) : From Ctx.root c :=
+  Loc.from (results_located (mt := mt) (dsc := dsc) (rt := rt) hd segs hk _ h)
 
 example : From Ctx.root (Ctx.root.child (.key (.str ['a'])) (.key (.str ['a'])) ['a']) := From.child _ _ _ From.start
 
